@@ -10,6 +10,7 @@ import (
 
 	v2 "github.com/hydraide/hydraide/app/core/hydra/swamp/chronicler/v2"
 	"github.com/hydraide/hydraide/app/vshim/vos"
+	"github.com/hydraide/hydraide/app/vshim/vrt"
 	"verifharness/kit"
 )
 
@@ -22,6 +23,8 @@ type c04seed struct {
 
 func c04seeds() []c04seed {
 	var out []c04seed
+	vrt.ForceVirtualClock = true // header timestamps are part of the mutated bytes: keep them identical in every run
+	defer func() { vrt.ForceVirtualClock = false }()
 	mk := func(name string, bs int, swamp string, entries []v2.Entry, flushEvery int) {
 		vos.UseMem()
 		vos.MkdirAll("/d", 0755)
